@@ -46,6 +46,7 @@ def step (line : String) : String :=
   | ["decl", hist] => DeclOps.run hist
   | ["sheet", fx, hist] => SheetOps.run fx hist
   | ["cont", which, hist] => SheetOps.runCont which hist
+  | ["nsform", d, attr, ns] => SheetOps.runNsForm d attr ns
   | ["sel", ns, hex] => SelOps.opSel ns hex
   | ["num", fx, om, hex] => NumOps.opNum fx om hex
   | ["numval", hex] => NumOps.opVal hex
